@@ -968,7 +968,7 @@ func checkC13(c *ctx) {
 			r.fail("c13.build", err.Error(), c13Input{Kind: "chunkreader", File: f})
 			continue
 		}
-		allowEmpty := k%10 == 9
+		allowEmpty := k%5 == 4
 		chunks, logical, hasEmpty := genChunkList(c.rnd, f, allowEmpty)
 		pattern := genPattern(c.rnd)
 		rd := 1 + k%3
